@@ -286,5 +286,337 @@ theorem mem_dedupK (l : List TKey) (k : TKey) : k ∈ dedupK l ↔ k ∈ l := by
         · exact Or.inl hx
         · exact Or.inr ⟨h, by simpa using hx⟩
 
+/-! ### Dictionaries, generated ids -/
+
+theorem dictSet_keys (d : Dict) (k : String) (v : ObjId) :
+    (dictSet d k v).map Prod.fst = if k ∈ d.map Prod.fst then d.map Prod.fst else d.map Prod.fst ++ [k] := by
+  unfold dictSet
+  by_cases h : d.any (fun e => e.1 == k) = true
+  · have hk : k ∈ d.map Prod.fst := by
+      obtain ⟨e, he, hek⟩ := List.any_eq_true.1 h
+      exact List.mem_map.2 ⟨e, he, by simpa using hek⟩
+    simp only [h, ↓reduceIte, hk, List.map_map]
+    apply List.map_congr_left
+    intro e _
+    by_cases hek : e.1 = k
+    · simp [hek]
+    · simp [hek]
+  · have hk : k ∉ d.map Prod.fst := by
+      intro hk
+      obtain ⟨e, he, rfl⟩ := List.mem_map.1 hk
+      exact h (List.any_eq_true.2 ⟨e, he, by simp⟩)
+    simp [h, hk]
+
+theorem dictSet_fresh (d : Dict) (k : String) (v : ObjId) (hk : k ∉ d.map Prod.fst) : dictSet d k v = d ++ [(k, v)] := by
+  unfold dictSet
+  have : d.any (fun e => e.1 == k) = false := by
+    apply Bool.eq_false_iff.2
+    intro h
+    obtain ⟨e, he, hek⟩ := List.any_eq_true.1 h
+    exact hk (List.mem_map.2 ⟨e, he, by simpa using hek⟩)
+  simp [this]
+
+theorem dictSet_nodup (d : Dict) (k : String) (v : ObjId) (h : (d.map Prod.fst).Nodup) :
+    ((dictSet d k v).map Prod.fst).Nodup := by
+  rw [dictSet_keys]
+  by_cases hk : k ∈ d.map Prod.fst
+  · simp [hk, h]
+  · simp only [hk, ↓reduceIte]
+    exact List.nodup_append.2 ⟨h, by simp, by
+      intro a ha b hb
+      simp at hb; subst hb
+      intro hab; subst hab; exact hk ha⟩
+
+theorem dictSet_vals (d : Dict) (k : String) (v : ObjId) (e : String × ObjId) (he : e ∈ dictSet d k v) :
+    e ∈ d ∨ e = (k, v) := by
+  unfold dictSet at he
+  by_cases h : d.any (fun e => e.1 == k) = true
+  · simp only [h, ↓reduceIte] at he
+    obtain ⟨a, ha, rfl⟩ := List.mem_map.1 he
+    by_cases hak : (a.1 == k) = true
+    · simp [hak]
+    · simp [hak, ha]
+  · simp only [h] at he
+    rcases List.mem_append.1 he with he | he
+    · exact Or.inl he
+    · exact Or.inr (by simpa using he)
+
+theorem dictUpdate_nodup (c : Dict) : ∀ (d : Dict), (d.map Prod.fst).Nodup → ((dictUpdate d c).map Prod.fst).Nodup := by
+  unfold dictUpdate
+  induction c with
+  | nil => intro d h; simpa using h
+  | cons e rest ih => intro d h; rw [List.foldl_cons]; exact ih _ (dictSet_nodup d e.1 e.2 h)
+
+theorem dictUpdate_vals (c : Dict) : ∀ (d : Dict) (e : String × ObjId), e ∈ dictUpdate d c → e ∈ d ∨ e ∈ c := by
+  unfold dictUpdate
+  induction c with
+  | nil => intro d e h; exact Or.inl (by simpa using h)
+  | cons x rest ih =>
+    intro d e h
+    rw [List.foldl_cons] at h
+    rcases ih _ e h with h | h
+    · rcases dictSet_vals d x.1 x.2 e h with h | h
+      · exact Or.inl h
+      · exact Or.inr (by rw [h]; simp)
+    · exact Or.inr (List.mem_cons_of_mem _ h)
+
+theorem dictUpdate_fresh (c : Dict) : ∀ (d : Dict), (c.map Prod.fst).Nodup → (∀ k ∈ c.map Prod.fst, k ∉ d.map Prod.fst) →
+    dictUpdate d c = d ++ c := by
+  unfold dictUpdate
+  induction c with
+  | nil => intro d _ _; simp
+  | cons x rest ih =>
+    intro d hn hd
+    rw [List.foldl_cons]
+    have hx : x.1 ∉ d.map Prod.fst := hd x.1 (by simp)
+    rw [dictSet_fresh d x.1 x.2 hx]
+    have hn' : x.1 ∉ rest.map Prod.fst ∧ (rest.map Prod.fst).Nodup := by
+      rw [List.map_cons] at hn; exact List.nodup_cons.1 hn
+    rw [ih (d ++ [(x.1, x.2)]) hn'.2 (by
+      intro k hk
+      simp only [List.map_append, List.map_cons, List.map_nil, List.mem_append, List.mem_singleton, not_or]
+      refine ⟨hd k (by simp [hk]), ?_⟩
+      intro hkx; subst hkx; exact hn'.1 hk)]
+    simp
+
+/-- what `genLoop` returns: the accumulator extended by one entry per selected function, with pairwise
+different ids. -/
+theorem genLoop_some (w : World) (ps : List String) : ∀ (sel : List (String × ObjId)) (i : Nat) (out r : Dict),
+    genLoop w ps i sel out = some r → (out.map Prod.fst).Nodup →
+    (r.map Prod.fst).Nodup ∧ ∃ ext : Dict, r = out ++ ext ∧ ext.map Prod.snd = sel.map Prod.snd := by
+  intro sel
+  induction sel with
+  | nil => intro i out r h hn; simp [genLoop] at h; subst h; exact ⟨hn, [], by simp, rfl⟩
+  | cons x rest ih =>
+    intro i out r h hn
+    obtain ⟨name, o⟩ := x
+    unfold genLoop at h
+    by_cases hk : out.any (fun e => e.1 == taskId w ps name i o) = true
+    · simp [hk] at h
+    · simp only [hk] at h
+      have hfresh : taskId w ps name i o ∉ out.map Prod.fst := by
+        intro hm
+        obtain ⟨e, he, hek⟩ := List.mem_map.1 hm
+        exact hk (List.any_eq_true.2 ⟨e, he, by simp [hek]⟩)
+      have hn' : ((out ++ [(taskId w ps name i o, o)]).map Prod.fst).Nodup := by
+        simp only [List.map_append, List.map_cons, List.map_nil]
+        exact List.nodup_append.2 ⟨hn, by simp, by
+          intro a ha b hb
+          simp at hb; subst hb
+          intro hab; subst hab; exact hfresh ha⟩
+      obtain ⟨h1, ext, h2, h3⟩ := ih (i + 1) _ r (by simpa using h) hn'
+      exact ⟨h1, (taskId w ps name i o, o) :: ext, by simp [h2], by simp [h3]⟩
+
+/-- two functions of one repeated name that stringify to the same id make `_generate_ids_for_tasks` raise. -/
+theorem genLoop_none_of_mem (w : World) (ps : List String) : ∀ (sel : List (String × ObjId)) (i : Nat) (out : Dict) (j : Nat) (x : String × ObjId),
+    sel[j]? = some x → taskId w ps x.1 (i + j) x.2 ∈ out.map Prod.fst → genLoop w ps i sel out = none := by
+  intro sel
+  induction sel with
+  | nil => intro i out j x h; simp at h
+  | cons y rest ih =>
+    intro i out j x h hm
+    obtain ⟨name, o⟩ := y
+    unfold genLoop
+    by_cases hk : out.any (fun e => e.1 == taskId w ps name i o) = true
+    · simp [hk]
+    · simp only [hk]
+      cases j with
+      | zero =>
+        simp at h; subst h
+        exfalso; apply hk
+        obtain ⟨e, he, hek⟩ := List.mem_map.1 hm
+        exact List.any_eq_true.2 ⟨e, he, by simpa using hek⟩
+      | succ j' =>
+        simp at h
+        have := ih (i + 1) (out ++ [(taskId w ps name i o, o)]) j' x h (by
+          have : i + 1 + j' = i + (j' + 1) := by omega
+          rw [this]; simp only [List.map_append, List.mem_append]; exact Or.inl hm)
+        simpa using this
+
+theorem genLoop_none_of_dup (w : World) (ps : List String) : ∀ (sel : List (String × ObjId)) (i : Nat) (out : Dict) (a b : Nat) (x y : String × ObjId),
+    a < b → sel[a]? = some x → sel[b]? = some y → taskId w ps x.1 (i + a) x.2 = taskId w ps y.1 (i + b) y.2 →
+    genLoop w ps i sel out = none := by
+  intro sel
+  induction sel with
+  | nil => intro i out a b x y _ h; simp at h
+  | cons z rest ih =>
+    intro i out a b x y hab ha hb heq
+    obtain ⟨name, o⟩ := z
+    unfold genLoop
+    by_cases hk : out.any (fun e => e.1 == taskId w ps name i o) = true
+    · simp [hk]
+    · simp only [hk]
+      cases b with
+      | zero => omega
+      | succ b' =>
+        simp at hb
+        cases a with
+        | zero =>
+          simp at ha; subst ha
+          have := genLoop_none_of_mem w ps rest (i + 1) (out ++ [(taskId w ps name i o, o)]) b' y hb (by
+            have : i + 1 + b' = i + (b' + 1) := by omega
+            rw [this, ← heq]; simp)
+          simpa using this
+        | succ a' =>
+          simp at ha
+          have := ih (i + 1) (out ++ [(taskId w ps name i o, o)]) a' b' x y (by omega) ha hb (by
+            have e1 : i + 1 + a' = i + (a' + 1) := by omega
+            have e2 : i + 1 + b' = i + (b' + 1) := by omega
+            rw [e1, e2]; exact heq)
+          simpa using this
+
+theorem mem_dedup (l : List String) (k : String) : k ∈ dedup l ↔ k ∈ l := by
+  induction l with
+  | nil => simp [dedup]
+  | cons x xs ih =>
+    simp only [dedup, List.mem_cons, List.mem_filter, ih]
+    constructor
+    · rintro (h | ⟨h, _⟩)
+      · exact Or.inl h
+      · exact Or.inr h
+    · rintro (h | h)
+      · exact Or.inl h
+      · by_cases hx : k = x
+        · exact Or.inl hx
+        · exact Or.inr ⟨h, by simpa using hx⟩
+
+theorem nodup_dedup (l : List String) : (dedup l).Nodup := by
+  induction l with
+  | nil => simp [dedup]
+  | cons x xs ih =>
+    simp only [dedup]
+    refine List.nodup_cons.2 ⟨?_, List.Nodup.sublist List.filter_sublist ih⟩
+    intro h
+    have := (List.mem_filter.1 h).2
+    simp at this
+
+/-- the contribution of one name: distinct keys, one entry per function carrying that name. -/
+theorem contribution_spec (w : World) (parsed : List (String × ObjId)) (name : String) (c : Dict)
+    (h : contribution w parsed name = some c) :
+    (c.map Prod.fst).Nodup ∧ c.map Prod.snd = (parsed.filter (fun e => e.1 == name)).map Prod.snd := by
+  unfold contribution at h
+  by_cases h2 : 2 ≤ (parsed.filter (fun e => e.1 == name)).length
+  · simp only [h2, decide_true, ↓reduceIte] at h
+    unfold generateIds at h
+    obtain ⟨h1, ext, h3, h4⟩ := genLoop_some w _ _ 0 [] c h (by simp)
+    simp at h3; subst h3
+    exact ⟨h1, h4⟩
+  · simp only [h2, decide_false, Bool.false_eq_true, ↓reduceIte] at h
+    generalize hsel : parsed.filter (fun e => e.1 == name) = sel at h h2
+    match sel, h with
+    | [], h => simp at h; subst h; simp
+    | [(n, o)], h => simp at h; subst h; simp
+    | _ :: _ :: _, _ => simp at h2
+
+theorem foldl_parseStep_none (w : World) (parsed : List (String × ObjId)) (ns : List String) :
+    ns.foldl (parseStep w parsed) none = none := by
+  induction ns with
+  | nil => rfl
+  | cons n rest ih => simpa [parseStep] using ih
+
+/-- soundness of the fold: keys stay distinct, values are old values or registered functions. -/
+theorem foldl_parseStep_sound (w : World) (parsed : List (String × ObjId)) : ∀ (ns : List String) (d0 d : Dict),
+    ns.foldl (parseStep w parsed) (some d0) = some d → (d0.map Prod.fst).Nodup →
+    (d.map Prod.fst).Nodup ∧ ∀ e ∈ d, e ∈ d0 ∨ e.2 ∈ parsed.map Prod.snd := by
+  intro ns
+  induction ns with
+  | nil => intro d0 d h hn; simp at h; subst h; exact ⟨hn, fun e he => Or.inl he⟩
+  | cons n rest ih =>
+    intro d0 d h hn
+    rw [List.foldl_cons] at h
+    cases hc : contribution w parsed n with
+    | none => simp [parseStep, hc, foldl_parseStep_none] at h
+    | some c =>
+      simp only [parseStep, hc] at h
+      obtain ⟨h1, h2⟩ := ih _ d h (dictUpdate_nodup c d0 hn)
+      refine ⟨h1, fun e he => ?_⟩
+      rcases h2 e he with h3 | h3
+      · rcases dictUpdate_vals c d0 e h3 with h4 | h4
+        · exact Or.inl h4
+        · right
+          have := (contribution_spec w parsed n c hc).2
+          have hm : e.2 ∈ c.map Prod.snd := List.mem_map.2 ⟨e, h4, rfl⟩
+          rw [this] at hm
+          obtain ⟨x, hx, hxe⟩ := List.mem_map.1 hm
+          exact List.mem_map.2 ⟨x, (List.mem_filter.1 hx).1, hxe⟩
+      · exact Or.inr h3
+
+/-- completeness of the fold when the contributions of different names do not share keys. -/
+theorem foldl_parseStep_complete (w : World) (parsed : List (String × ObjId)) : ∀ (ns : List String) (d0 d : Dict),
+    ns.foldl (parseStep w parsed) (some d0) = some d → ns.Nodup →
+    (∀ n ∈ ns, ∀ c, contribution w parsed n = some c → ∀ k ∈ c.map Prod.fst, k ∉ d0.map Prod.fst) →
+    (∀ n1 ∈ ns, ∀ n2 ∈ ns, n1 ≠ n2 → ∀ c1 c2, contribution w parsed n1 = some c1 → contribution w parsed n2 = some c2 →
+        ∀ k ∈ c1.map Prod.fst, k ∉ c2.map Prod.fst) →
+    (∀ e ∈ d0, e ∈ d) ∧ ∀ n ∈ ns, ∃ c, contribution w parsed n = some c ∧ ∀ e ∈ c, e ∈ d := by
+  intro ns
+  induction ns with
+  | nil => intro d0 d h _ _ _; simp at h; subst h; exact ⟨fun e he => he, by simp⟩
+  | cons n rest ih =>
+    intro d0 d h hnd hd0 hpair
+    rw [List.foldl_cons] at h
+    have hnd' := List.nodup_cons.1 hnd
+    cases hc : contribution w parsed n with
+    | none => simp [parseStep, hc, foldl_parseStep_none] at h
+    | some c =>
+      simp only [parseStep, hc] at h
+      have hfresh := dictUpdate_fresh c d0 (contribution_spec w parsed n c hc).1 (hd0 n (by simp) c hc)
+      rw [hfresh] at h
+      obtain ⟨h1, h2⟩ := ih (d0 ++ c) d h hnd'.2
+        (by
+          intro n' hn' c' hc' k hk
+          simp only [List.map_append, List.mem_append, not_or]
+          refine ⟨hd0 n' (by simp [hn']) c' hc' k hk, ?_⟩
+          intro hkc
+          have hne : n' ≠ n := by intro he; subst he; exact hnd'.1 hn'
+          exact hpair n' (by simp [hn']) n (by simp) hne c' c hc' hc k hk hkc)
+        (by
+          intro n1 h1 n2 h2 hne c1 c2 hc1 hc2
+          exact hpair n1 (by simp [h1]) n2 (by simp [h2]) hne c1 c2 hc1 hc2)
+      refine ⟨fun e he => h1 e (List.mem_append.2 (Or.inl he)), ?_⟩
+      intro n' hn'
+      rcases List.mem_cons.1 hn' with rfl | hn'
+      · exact ⟨c, hc, fun e he => h1 e (List.mem_append.2 (Or.inr he))⟩
+      · exact h2 n' hn'
+
+theorem foldl_parseStep_none_of_mem (w : World) (parsed : List (String × ObjId)) (n : String)
+    (hc : contribution w parsed n = none) : ∀ (ns : List String) (acc : Option Dict), n ∈ ns →
+    ns.foldl (parseStep w parsed) acc = none := by
+  intro ns
+  induction ns with
+  | nil => intro acc h; simp at h
+  | cons x rest ih =>
+    intro acc h
+    rw [List.foldl_cons]
+    rcases List.mem_cons.1 h with rfl | h
+    · have : parseStep w parsed acc n = none := by
+        cases acc with
+        | none => rfl
+        | some d => simp [parseStep, hc]
+      rw [this, foldl_parseStep_none]
+    · exact ih _ h
+
+/-! ### Reports of a session -/
+
+theorem foldl_collectStep_reports (env : Env) (enum : List String → List String) : ∀ (files : List Path) (st : World × List Report) (r : Report),
+    r ∈ st.2 → r ∈ (files.foldl (collectStep env enum) st).2 := by
+  intro files
+  induction files with
+  | nil => intro st r h; simpa using h
+  | cons p rest ih =>
+    intro st r h
+    rw [List.foldl_cons]
+    apply ih
+    unfold collectStep
+    exact List.mem_append.2 (Or.inl h)
+
+theorem foldl_collectStep_split (env : Env) (enum : List String → List String) (pre post : List Path) (p : Path)
+    (st : World × List Report) (r : Report)
+    (h : r ∈ (collectFile env enum (pre.foldl (collectStep env enum) st).1 p).2) :
+    r ∈ ((pre ++ p :: post).foldl (collectStep env enum) st).2 := by
+  rw [List.foldl_append, List.foldl_cons]
+  apply foldl_collectStep_reports
+  unfold collectStep
+  exact List.mem_append.2 (Or.inr h)
+
 end Collect
 end Pytask
